@@ -309,11 +309,38 @@ def oracle_case(cname, cls, h, s, y, idxs, big_h, big_s, big_y, report, cl):
         if not np.array_equal(up[mask], call_h[mask]):
             d = float(np.max(np.abs(up[mask] - call_h[mask])))
             report(f"subspace-touched:{cname}", f"{tag}: entries outside the subspace changed by up to {d:.3e}")
-    # inverse form x direct form = identity (h_inv = inv(h)); reduced problem only
-    if idxs is None and abs(np.linalg.det(h)) > 1e-6 and n <= 12:
+        # BOTH h and h_inv given together with a proper subspace: each form is embedded into ITS OWN input
+        big_n = call_h.shape[0]
+        invertible = abs(np.linalg.det(h)) > 1e-6 and n <= 12
+        big_hi = 2.0 * np.eye(big_n) - 0.5 * call_h                  # symmetric, differs from H in every entry class
+        big_hi[np.ix_(idxs, idxs)] = np.linalg.inv(h) if invertible else 2.0 * np.eye(n) - 0.5 * h
+        big_hi = (big_hi + big_hi.T) / 2.0
+        rb = run_updater(cls, call_h, big_hi, call_s, call_y, idxs)
+        rr = run_updater(cls, h, big_hi[np.ix_(idxs, idxs)], s, y, None)     # the reduced problem
+        for attr, init in (("updated_h_inv", big_hi), ("updated_h", call_h)):
+            fullm, red = rb[attr], rr[attr]
+            if isinstance(fullm, tuple) or isinstance(red, tuple):
+                if isinstance(fullm, tuple) != isinstance(red, tuple):
+                    report(f"subspace-both-raises:{cname}", f"{tag}.{attr} with h and h_inv given: subspace call -> "
+                                                            f"{fullm if isinstance(fullm, tuple) else 'ok'}, reduced call -> {red if isinstance(red, tuple) else 'ok'}")
+                continue
+            if not (finite(fullm) and finite(red)):
+                continue
+            if fullm.shape != init.shape or not np.array_equal(fullm[mask], init[mask]):
+                d = float(np.max(np.abs(fullm[mask] - init[mask]))) if fullm.shape == init.shape else float("nan")
+                report(f"subspace-touched-both:{cname}", f"{tag}.{attr} with h and h_inv both given: entries outside the subspace "
+                                                         f"differ from the input {'h_inv' if attr == 'updated_h_inv' else 'h'} by up to {d:.3e}")
+                continue
+            blk, want = fullm[np.ix_(idxs, idxs)], (red + red.T) / 2.0
+            if not np.allclose(blk, want, rtol=1e-9, atol=1e-9 * max(1.0, float(np.max(np.abs(want))))):
+                report(f"subspace-block-both:{cname}", f"{tag}.{attr} with h and h_inv both given: the sub-block is not the update "
+                                                       f"of the reduced problem (max deviation {float(np.max(np.abs(blk - want))):.3e})")
+    # inverse form x direct form = identity (h_inv = inv(h)); reduced problem, without subspace and with ALL indexes selected
+    for sel in ((None, list(range(n))) if idxs is None and abs(np.linalg.det(h)) > 1e-6 and n <= 12 else ()):
         h_inv_small = np.linalg.inv(h)
-        r2 = run_updater(cls, h, h_inv_small, s, y, None)
+        r2 = run_updater(cls, h, h_inv_small, s, y, sel)
         ui = r2["updated_h_inv"]
+        up = r2["updated_h"] if sel is not None and finite(r2["updated_h"]) else up
         if cname in CLOSED_INV:
             sy = float(s @ y)
             t = s - h_inv_small @ y
@@ -664,6 +691,11 @@ def correspondence(ctx, classes, full):
                                 and np.linalg.cond(up) < 1e5:
                             ei = f"(IOracle {fl_mat(ui.tolist())})"
                             note("updated_h_inv-oracle", "io")
+                        elif idxs is not None and not cl["zero"] and not cl["marginal"] and finite(up) and finite(ui) \
+                                and np.linalg.cond(up[np.ix_(idxs, idxs)]) < 1e5:
+                            # h and h_inv both given + proper subspace: np.linalg.inv's result is the sub-block
+                            ei = f"(IOracleSub {fl_mat(ui[np.ix_(idxs, idxs)].tolist())} {fl_mat(ui.tolist())})"
+                            note("updated_h_inv-oracle-subspace", "ios")
                         entries.append(f"({COQ_CLS[cname]}, {eh}, {ec}, {ei})")
                         meta.append(d)
                     case_terms.append(f"case_checks {opt_idx(idxs)} {coq_nat(big)} {fl_mat(H.tolist())} {fl_mat(HI.tolist())} "
